@@ -60,10 +60,12 @@ BehFew(s) ==
          [] OTHER         -> {"none"}
 Beh(s) == (IF Restricted THEN BehFew(s) ELSE BehAll(s))
              \cup (IF Timed /\ ObjVariants /\ s = "fetch" THEN {"shortttl"} ELSE {})
+             \* `set obj.ttl = 1h` in vcl_hit: the object hit lives on past the lifetime it was stored with
+             \cup (IF Timed /\ ObjVariants /\ s = "hit" THEN {"extend"} ELSE {})
 
 IsRestart(b) == b \in {"restart_stmt", "restart_ret"}
 IsError(b)   == b \in {"error_stmt", "error_ret"}
-FallsOff(b)  == b \in {"none", "expire", "ttl0", "uncacheable", "shortttl"}
+FallsOff(b)  == b \in {"none", "expire", "extend", "ttl0", "uncacheable", "shortttl"}
 
 (***************************************************************************)
 (* REQUIREMENT: successor of (subroutine, behaviour).  Result is a         *)
@@ -184,6 +186,7 @@ MechCache(s, b) ==
   IF s = "fetch" /\ b = "restart_stmt" /\ restarts >= MaxRestarts THEN cache
   ELSE IF s = "fetch" THEN StoreAfterFetch(cache, url, status, t0, unc, b = "shortttl")
   ELSE IF s = "hit" /\ b = "expire" THEN [cache EXCEPT ![url] = "expired"]
+  ELSE IF s = "hit" /\ b = "extend" THEN [cache EXCEPT ![url] = "fresh"]
   ELSE cache
 
 StepGen(b, logged, c1, absentRecv) ==
